@@ -9,6 +9,7 @@ from util import call, quiet
 
 REQUIRED_THEOREMS = ['Usid.C10.flatten_of_reshape', 'Usid.C10.reshape_of_flatten', 'Usid.C10.flatten_reads_coordinates',
                      'Usid.C10.flatten_pos_only', 'Usid.C10.flatten_spec_only',
+                     'Usid.C10.flatten_squeezed_pos', 'Usid.C10.flatten_squeezed_spec',
                      'Usid.C10.incompatible_raises', 'Usid.C10.rank_mismatch_raises', 'Usid.C10.result_shape']
 RULE = ('generator datasets (1-3 dimensions per side, sizes 1-4, every storage permutation; a share with a single '
         'position or a single spectroscopic point); the file-order N-D form is flattened with the dataset\'s own index '
